@@ -276,9 +276,14 @@ Check C07_absorbing_formatter_idem : forall c psort pcmp esort ecmp g d,
   std_ws fixed c psort esort (Some (pure_fmt g)) (ltree_of l1) = Ok (ltree_of l1).
 Print Assumptions C07_absorbing_formatter_idem.
 
-Theorem C07_uploaders_absorbing : absorbing (fun _ v => fmt_uploaders v) /\ no_lead (fun _ v => fmt_uploaders v).
-Proof. exact (conj uploaders_absorbing uploaders_no_lead). Qed.
-Check C07_uploaders_absorbing : absorbing (fun _ v => fmt_uploaders v) /\ no_lead (fun _ v => fmt_uploaders v).
+(* the Uploaders arm of format_field as shipped (the streams' test formatter 'u') and with C07-21 *)
+Theorem C07_uploaders_absorbing :
+  (absorbing (fun _ v => fmt_uploaders v) /\ no_lead (fun _ v => fmt_uploaders v)) /\
+  (absorbing (fun _ v => fmt_uploaders_h v) /\ no_lead (fun _ v => fmt_uploaders_h v)).
+Proof. exact (conj (conj uploaders_absorbing uploaders_no_lead) (conj uploaders_h_absorbing uploaders_h_no_lead)). Qed.
+Check C07_uploaders_absorbing :
+  (absorbing (fun _ v => fmt_uploaders v) /\ no_lead (fun _ v => fmt_uploaders v)) /\
+  (absorbing (fun _ v => fmt_uploaders_h v) /\ no_lead (fun _ v => fmt_uploaders_h v)).
 Print Assumptions C07_uploaders_absorbing.
 
 (* a shaped output lexes (line by line) to the tokens of the value it is read as *)
@@ -310,10 +315,15 @@ Print Assumptions C07_comparators.
 
 (* 8. The control-file wrappers.  Control::wrap_and_sort IS the deb822-level reformatting in control
       order, without a field sort, with the control formatter (Uploaders: split at ',', trim, join
-      with ",\n"; the twelve relationship fields: the relations cone's formatter r; others: as
-      they are) -- so C07_formatter / C07_formatter_idem speak about it wherever ctl_fmt r is shaped.
-      The relations formatter is a parameter; when it panics (format_field unwraps the parse of a
-      value the relations reader rejects) so does the wrapper. *)
+      with ",\n" -- with ", " in front of a piece that starts with '#', C07-21 --; the twelve
+      relationship fields: the relations cone's formatter r; others: as they are) -- so
+      C07_formatter / C07_formatter_idem speak about it wherever ctl_fmt r is shaped.
+      The relations formatter is a parameter.  When the relations parser rejects the value
+      (Panic 20: the assert! of format_field) the shipped wrapper panics on an error-free deb822
+      document; with C07-22 the field is left as it is (C07_control_unparsable_relation_kept: for
+      every relationship field name and every value C13's model rejects, and the document of the
+      audit).  C07_uploaders_hash_piece: without C07-21 "Uploaders: A <a@x>, #B <b@x>" is printed with
+      "#B <b@x>" on a line of its own -- the object reports two lines, the text re-reads to one. *)
 Theorem C07_control : forall c r t,
   control_ws fixed (fun x => Ok (r x)) (c_ind c) (c_iel c) (c_mll c) t
   = std_ws fixed c (Some control_order) None (Some (pure_fmt (ctl_fmt r))) t.
@@ -324,11 +334,31 @@ Check C07_control : forall c r t,
 Print Assumptions C07_control.
 
 Theorem C07_control_unparsable_relation_panics :
-  control_ws fixed (fun _ => Panic 20) (Spaces 1) false None (tree_of WC.d_bad_relation) = Panic 20.
+  control_ws no_rel_keep (fun _ => Panic 20) (Spaces 1) false None (tree_of WC.d_bad_relation) = Panic 20.
 Proof. exact control_unparsable_relation_panics. Qed.
 Check C07_control_unparsable_relation_panics :
-  control_ws fixed (fun _ => Panic 20) (Spaces 1) false None (tree_of WC.d_bad_relation) = Panic 20.
+  control_ws no_rel_keep (fun _ => Panic 20) (Spaces 1) false None (tree_of WC.d_bad_relation) = Panic 20.
 Print Assumptions C07_control_unparsable_relation_panics.
+
+Theorem C07_control_unparsable_relation_kept :
+  (forall name v, str_eqb name Lit.k_Uploaders = false -> is_rel_field name = true ->
+     RelWrap.ctl_rel RelWrap.fixed v = Panic 20 -> real_format_field name v = Ok v) /\
+  control_ws fixed (fun _ => Panic 20) (Spaces 1) false None (tree_of WC.d_bad_relation) = Ok (tree_of WC.d_bad_relation).
+Proof. exact (conj real_ff_unparsable control_unparsable_relation_kept_ex). Qed.
+Check C07_control_unparsable_relation_kept :
+  (forall name v, str_eqb name Lit.k_Uploaders = false -> is_rel_field name = true ->
+     RelWrap.ctl_rel RelWrap.fixed v = Panic 20 -> real_format_field name v = Ok v) /\
+  control_ws fixed (fun _ => Panic 20) (Spaces 1) false None (tree_of WC.d_bad_relation) = Ok (tree_of WC.d_bad_relation).
+Print Assumptions C07_control_unparsable_relation_kept.
+
+Theorem C07_uploaders_hash_piece :
+  ctl_reports no_upl_hash WC.d_upl_hash = Ok (WC.upl_hash_reported, Ok WC.upl_hash_reread) /\
+  ctl_reports fixed WC.d_upl_hash = Ok (WC.upl_hash_kept, Ok WC.upl_hash_kept).
+Proof. exact uploaders_hash_piece. Qed.
+Check C07_uploaders_hash_piece :
+  ctl_reports no_upl_hash WC.d_upl_hash = Ok (WC.upl_hash_reported, Ok WC.upl_hash_reread) /\
+  ctl_reports fixed WC.d_upl_hash = Ok (WC.upl_hash_kept, Ok WC.upl_hash_kept).
+Print Assumptions C07_uploaders_hash_piece.
 
 (* 9. The control-file wrappers with the REAL relations branch (no parameter): format_field with
       C13's model of parse_relaxed(v, true) + Relations::wrap_and_sort + to_string in it
